@@ -1,9 +1,38 @@
 PROPERTY = "C06"
 LEVEL = "model_checking"
-FUNCTIONS = ["sqfs_tree_node_get_path", "restore_fstree", "create_node_dfs", "create_node"]
-TRUSTED = []
-ASSUMPTIONS = []
-EXPLANATION = ""
+FUNCTIONS = ["sqfs_tree_node_get_path", "restore_fstree", "create_node_dfs",
+             "create_node", "update_tree_attribs", "set_attribs", "set_xattr",
+             "fill_unpacked_files", "gen_file_list_dfs", "add_file",
+             "fill_files", "tree_sort", "list_sort", "list_merge", "mkdir_p",
+             "main (rdsquashfs.c, OP_UNPACK branch)",
+             "is_filename_sane (real, inside the three walks)",
+             "canonicalize_name (real in the thorough-tier walk variants)"]
+TRUSTED = [
+    "mkdir/symlink/mknod/open/lsetxattr/utimensat/fchownat/fchmodat/chdir: any result, errno arbitrary; "
+    "REQUIRE the C06 path predicate (that is the obligation C06.<walk>.path_pre)",
+    "POSIX: an empty pathname is refused (ENOENT) by every one of these calls (none is given AT_EMPTY_PATH) - "
+    "the only non-confined string the walks can emit, and only for a tree root that is not a directory",
+    "sqfs_ostream_open_file opens exactly the path it is given (lib/sqfs/src/io/ostream.c, unix.c: open(filename, O_CREAT|O_RDWR|O_TRUNC))",
+    "sqfs_tree_node_get_path contract (get_path_contract.h) when the walks are verified - established by harness get_path for the same bounds",
+    "canonicalize_name contract restricted to get_path results (drop the leading slash) in the quick-tier walks - "
+    "C18.canon.output_eq_spec + C06.get_path.canon_is_shift; the thorough tier repeats the walks with the real function",
+    "xattr reader / data reader / stream objects: any result at any step (bounded: <= 2 xattr pairs, <= 2 data chunks)",
+    "qsort: some permutation of the file list",
+    "CBMC library models of strcmp/strlen/strchr/memcpy/strdup/malloc/realloc/alloca",
+]
+ASSUMPTIONS = [
+    "bounded: tree shapes of tree.h (<= 5 nodes, depth <= 3, child lists <= 4), names <= 2 bytes (3 in the thorough tier) over the full byte alphabet; not a proof for all trees",
+    "the tree handed to the walks is well formed (parent links inverse to child lists, root parentless) - that is what lib/common/src/read_tree.c builds (fill_dir sets n->parent = root, nodes come from calloc); read_tree.c itself is covered by C05, not here",
+    "objects that already exist below R before the run (mkdir accepts EEXIST, so a pre-existing symlink named like an image directory would be followed), races with other processes, and the kernel's path resolution are outside the claim",
+    "mkdir_p creates the missing ancestors of R as well as R (prefixes of the option string); that is the documented meaning of --unpack-root",
+    "without --unpack-root the unpack root is the current directory; no chdir is issued",
+    "on this snapshot unpacking a sub-path (-u /a/b) always fails in sqfs_tree_node_get_path because the sub-tree root keeps its name ('root node must not have a name'): nothing is written, which satisfies C06, but it is a functional defect",
+    "Windows branches are preprocessed away",
+]
+EXPLANATION = ("confined(p) is the precondition of every path-taking system-call stub; the three real tree walks are "
+               "symbolically executed on bounded concrete tree shapes with fully symbolic names, modes and option flags; "
+               "tree_sort/list_sort give strictly increasing sibling names (no duplicates); main()'s unpack branch is "
+               "loop-free and checked for chdir-before-walk and sort-before-walk with every callee failing at will")
 
 _DEPTH = {0: 0, 1: 1, 2: 2, 3: 3, 4: 1, 5: 2, 6: 2}
 
@@ -35,6 +64,30 @@ def _shapes(shapes, namelen, tier, label=None, extra=None, loops=()):
     return out
 
 
+_KIDS = {1: 1, 2: 1, 3: 1, 4: 2, 5: 2, 6: 2, 7: 3, 8: 4}
+_DEPTH.update({7: 1, 8: 1})
+_NNODES.update({7: 4, 8: 5})
+
+
+def _sortcase(shape, tier, namelen=2):
+    """tree_sort / list_sort are recursive and, after the first merge, walk
+    lists whose order is symbolic; every loop and recursion gets the bound
+    the shape needs (the unwinding assertions check that it suffices)."""
+    k = _KIDS[shape]
+    rec = {1: 1, 2: 2, 3: 3, 4: 3}[k]
+    return dict(id="shape%d_n%d" % (shape, namelen),
+                defines={"SHAPE": shape, "NAMELEN": namelen}, tier=tier,
+                unwind=max(_NNODES[shape] + 1, 5),
+                unwindset=["strcmp.0:%d" % (namelen + 2),
+                           "name_cmp.0:%d" % (namelen + 2),
+                           "tree_sort:%d" % (_DEPTH[shape] + 1),
+                           "list_sort:%d" % rec,
+                           "list_sort.0:%d" % (k // 2 + 2),
+                           "list_merge.0:%d" % max(k, 2),
+                           "tree_sort.0:%d" % max(k, 2),
+                           "tree_sort.1:%d" % (k + 1)])
+
+
 HARNESSES = [
     dict(name="get_path", file="get_path.c", malloc_fail=True,
          label="bounded(depth<=3,name<=2)", timeout=900,
@@ -46,25 +99,62 @@ HARNESSES = [
     dict(name="create", file="create.c", malloc_fail=True,
          include_dirs=["bin/rdsquashfs/src"],
          defines={"C06_CANON_CONTRACT": None},
-         label="bounded(shapes<=7,depth<=3,name<=2)", timeout=1200,
-         cases=_shapes(range(0, 7), 2, "quick")),
+         label="bounded(shapes<=7,depth<=3,name<=2)", timeout=1800,
+         cases=_shapes(range(0, 7), 2, "quick") +
+               _shapes((1, 2, 4), 3, "thorough",
+                       label="bounded(shapes<=3,depth<=2,name<=3)")),
+    # the same walk with the REAL canonicalize_name instead of its contract
+    dict(name="create_realcanon", file="create.c", malloc_fail=True,
+         include_dirs=["bin/rdsquashfs/src"],
+         label="bounded(shapes<=4,depth<=2,name<=2)", timeout=2400,
+         cases=_shapes((0, 1), 2, "quick") + _shapes((2, 4), 2, "thorough")),
     dict(name="attribs", file="attribs.c", malloc_fail=True,
          include_dirs=["bin/rdsquashfs/src"],
          defines={"C06_CANON_CONTRACT": None},
          label="bounded(shapes<=7,depth<=3,name<=2,xattrs<=2)", timeout=1800,
-         cases=_shapes(range(0, 7), 2, "quick", loops=["set_xattr.0"])),
+         cases=_shapes((0, 1, 2, 4), 2, "quick", loops=["set_xattr.0"]) +
+               _shapes((3, 5, 6), 2, "thorough", loops=["set_xattr.0"])),
+    dict(name="attribs_realcanon", file="attribs.c", malloc_fail=True,
+         include_dirs=["bin/rdsquashfs/src"],
+         label="bounded(shapes<=3,depth<=2,name<=2,xattrs<=2)", timeout=2400,
+         cases=_shapes((0, 1, 2), 2, "thorough", loops=["set_xattr.0"])),
     dict(name="fill", file="fill.c", malloc_fail=True,
          include_dirs=["bin/rdsquashfs/src"],
          defines={"C06_CANON_CONTRACT": None},
          fp={"flush": "stub_flush", "destroy": "stub_destroy"},
          label="bounded(shapes<=7,depth<=3,name<=2,chunks<=2)", timeout=1800,
-         cases=_shapes(range(0, 7), 2, "quick",
+         cases=_shapes((0, 1, 2, 4), 2, "quick",
+                       loops=["fill_files.0", "fill_files.1",
+                              "clear_file_list.0"]) +
+               _shapes((3, 5, 6), 2, "thorough",
                        loops=["fill_files.0", "fill_files.1",
                               "clear_file_list.0"])),
+    dict(name="fill_realcanon", file="fill.c", malloc_fail=True,
+         include_dirs=["bin/rdsquashfs/src"],
+         fp={"flush": "stub_flush", "destroy": "stub_destroy"},
+         label="bounded(shapes<=3,depth<=2,name<=2,chunks<=2)", timeout=2400,
+         cases=_shapes((0, 1, 2), 2, "thorough",
+                       loops=["fill_files.0", "fill_files.1",
+                              "clear_file_list.0"])),
+    dict(name="lsort", file="lsort.c", include_dirs=["bin/rdsquashfs/src"],
+         label="bounded(list<=4,name<=2)", timeout=1800,
+         cases=[_sortcase(s, "quick") for s in (1, 4, 7, 8)]),
+    dict(name="tsort", file="tsort.c", include_dirs=["bin/rdsquashfs/src"],
+         label="bounded(list<=4,depth<=2,name<=2)", timeout=1800,
+         cases=[_sortcase(s, "quick" if s != 8 else "thorough")
+                for s in (1, 4, 5, 6, 7, 8)]),
+    dict(name="mkdir_p", file="mkdir_p.c", label="bounded(len<=9)",
+         timeout=900,
+         cases=[dict(id="len%d" % n, defines={"LEN": n}, unwind=n + 3,
+                     tier="quick" if n <= 9 else "thorough",
+                     label="bounded(len<=%d)" % (9 if n <= 9 else 12))
+                for n in (4, 6, 9, 12)]),
     dict(name="unpack_main", file="unpack_main.c",
          include_dirs=["bin/rdsquashfs/src"],
          fp={"destroy": "stub_obj_destroy"},
-         label="proved", timeout=600, unwind=6,
+         label="bounded(tree=R->{A,B} concrete; options and all callee outcomes symbolic)",
+         timeout=600, unwind=6,
+         unwindset=_sortcase(4, "quick")["unwindset"],
          cases=[dict(id="distinct", defines={}, tier="quick"),
                 dict(id="dup", defines={"DUP": None}, tier="quick")]),
 ]
